@@ -1,7 +1,9 @@
 package route
 
 import (
+	"fmt"
 	"math/rand/v2"
+	"net/url"
 	"strings"
 
 	"foxverif/gen"
@@ -160,4 +162,50 @@ func Churn(b *Built, r *rand.Rand, pf gen.Profile, extraMethods ...string) (int,
 		}
 	}
 	return len(tmp), ""
+}
+
+// Escaped derives from a plain request the wire form a client could send for the "same" resource with needless or
+// reserved percent-escapes in one segment, as net/url would parse it: Path holds the decoded form, RawPath the escaped
+// one (the router routes on RawPath when it is set). ok is false when the request has no segment to work on.
+func Escaped(r *rand.Rand, q Req) (Req, bool) {
+	if q.RawPath != "" || !strings.HasPrefix(q.Path, "/") {
+		return q, false
+	}
+	segs := strings.Split(q.Path, "/")
+	var idx []int
+	for i, sg := range segs {
+		if i > 0 && sg != "" && !strings.ContainsAny(sg, "%?#") {
+			idx = append(idx, i)
+		}
+	}
+	if len(idx) == 0 {
+		return q, false
+	}
+	i := idx[r.IntN(len(idx))]
+	sg := segs[i]
+	k := r.IntN(len(sg) + 1)
+	var esc string
+	switch r.IntN(4) {
+	case 0:
+		esc = sg[:k] + "%2F" + sg[k:] // an escaped slash inside a segment
+	case 1:
+		esc = sg[:k] + "%2f" + sg[k:] // lower-case hex
+	case 2:
+		if k == len(sg) {
+			k--
+		}
+		esc = sg[:k] + fmt.Sprintf("%%%02X", sg[k]) + sg[k+1:] // a needlessly escaped ordinary byte
+	default:
+		esc = sg[:k] + "%3A" + sg[k:]
+	}
+	cp := append([]string(nil), segs...)
+	cp[i] = esc
+	wire := strings.Join(cp, "/")
+	u, err := url.ParseRequestURI(wire)
+	if err != nil || u.RawPath == "" {
+		return q, false
+	}
+	t := q
+	t.Path, t.RawPath = u.Path, u.RawPath
+	return t, true
 }
